@@ -3460,7 +3460,7 @@ MODULES = {
         "files": ["loop_ranges.rs"],
         "types": ["LoopRange"],
         "consts": [],
-        "functions": [(None, None, "add32"), (None, None, "mul32")] + [("LoopRange", None, f) for f in LOOPRANGE_FNS],
+        "functions": [(None, None, "add32"), (None, None, "mul32")] + [("LoopRange", None, f) for f in LOOPRANGE_FNS] + [("LoopRange", "Display", "fmt")],
     },
     "CharSetGen": {
         "files": ["character_sets.rs", "smt_strings.rs"],
